@@ -4,7 +4,10 @@ Real functions lowered on every run (src/client/QXmppOutgoingClient.cpp unless n
   QXmppOutgoingClient::{_q_socketDisconnected, closeSession, openSession, handleStart, disconnectFromHost, isConnected, isAuthenticated,
   socketError, handleStreamError, socket}, QXmppOutgoingClientPrivate::connectToNextAddress, C2sStreamManager::{onStreamStart, onStreamClosed,
   canResume, enabled, streamResumed} (the getters from QXmppOutgoingClient.h), XmppSocket::{isConnected (base/Stream.cpp), socket},
-  QXmppClient::{state, isConnected} (src/client/QXmppClient.cpp).
+  QXmppClient::{state, isConnected} (src/client/QXmppClient.cpp);
+  the callers of openSession(): QXmppOutgoingClient::{startSmResume, startSmEnable, startResourceBinding, handleStreamFeatures, configuration} and the
+  continuation lambdas of startSmResume, startSmEnable, startResourceBinding, startSasl2Auth, startNonSaslAuth (both), handleStreamFeatures (SASL),
+  C2sStreamManager::{canRequestResume, canRequestEnable, onStreamFeatures}, the QXmppStreamFeatures / QXmppConfiguration getters they use.
 Findings C10-F1 / C10-F2 (units/C10/findings.json) are keyed by the state on entry of _q_socketDisconnected; native drivers replay_redirect.cpp /
 replay_bind2.cpp.  The AST inventory (closed world for the session flag, the session signals and the bind2 result) runs as a proof of its own.
 """
@@ -28,7 +31,7 @@ STUBS = ['XmppSocket_sendData', 'XmppSocket_disconnectFromHost', 'QXmppOutgoingC
          'OutgoingIqManager_onSessionOpened', 'CarbonManager_onSessionOpened', 'CsiManager_onSessionOpened', 'FastTokenManager_tokenChanged',
          'QXmppOutgoingClient_sig_connected']
 FINDING2 = 'C10-F2'
-NEG_STUBS = ['qtask_then', 'C2sStreamManager_requestResume', 'C2sStreamManager_requestEnable', 'BindManager_bindAddress', 'NonSaslAuthManager_authenticate',
+NEG_STUBS = ['QXmppOutgoingClient_handleStarttls', 'CsiManager_onStreamFeatures', 'qtask_then', 'C2sStreamManager_requestResume', 'C2sStreamManager_requestEnable', 'BindManager_bindAddress', 'NonSaslAuthManager_authenticate',
              'setListener_BindManager', 'setListener_SaslManager', 'SaslManager_authenticate', 'QXmppOutgoingClient_startSasl2Auth', 'QXmppOutgoingClient_startNonSaslAuth',
              'QXmppConfiguration_setUser', 'QXmppConfiguration_setDomain', 'QXmppConfiguration_setResource', 'QXmppConfiguration_setJid', 'QXmppConfiguration_resource',
              'QXmppConfiguration_user', 'QXmppConfiguration_password', 'QXmppConfiguration_nonSASLAuthMechanism', 'FastTokenManager_onSasl2Success',
@@ -45,6 +48,7 @@ void h_startResourceBinding_cont(void) { gh_init(); const QXmppOutgoingClient *s
 void h_startSasl2Auth_cont(void) { gh_init(); const QXmppOutgoingClient *self; Sasl2Result *r; startSasl2Auth_cont1(self, r); }
 void h_startNonSaslAuth_cont0(void) { gh_init(); const QXmppOutgoingClient *self; NonSaslOptionsResult *r; startNonSaslAuth_cont0(self, r); }
 void h_startNonSaslAuth_cont1(void) { gh_init(); const QXmppOutgoingClient *self; SuccessOrError *r; startNonSaslAuth_cont1(self, r); }
+void h_handleStreamFeatures(void) { gh_init(); QXmppOutgoingClient *self; const QXmppStreamFeatures *f; QXmppOutgoingClient_handleStreamFeatures(self, f); }
 void h_handleStreamFeatures_cont(void) { gh_init(); const QXmppOutgoingClient *self; SaslResult *r; handleStreamFeatures_cont0(self, r); }
 '''
 
@@ -130,7 +134,7 @@ EXPECTED = {
     ('call', 'connected'): set(),
     ('call', 'disconnected'): set(),
     ('call', 'closeSession'): set(),
-    # who declares the session open
+    # who declares the session open: exactly the six call sites that are under contract in the negotiation part (build(): `continuation`, handleStreamFeatures)
     ('call', 'openSession'): {('startSasl2Auth', True), ('startNonSaslAuth', True), ('startSmResume', True), ('startSmEnable', True),
                               ('startResourceBinding', True), ('handleStreamFeatures', False)},
 }
@@ -427,6 +431,26 @@ void h_clientIsConnected(void) { gh_init(); const QXmppClient *self; QXmppClient
                             ('startNonSaslAuth_cont1', 'startNonSaslAuth_cont1.spec'), ('startNonSaslAuth_cont0', 'startNonSaslAuth_cont0.spec'),
                             ('handleStreamFeatures_cont0', 'handleStreamFeatures_cont.spec')):
         lowneg(cname, specfile, decl=conts[cname][0], label=conts[cname][1])
+    # ---- handleStreamFeatures (its own openSession call site): records and real getters as in units/C04
+    CONF, FEAT = 'src/client/QXmppConfiguration.cpp', 'src/base/QXmppStreamFeatures.cpp'
+    prof.types.update({'QSharedDataPointer<QXmppStreamFeaturesPrivate>': 'QXmppStreamFeaturesPrivate*', 'QXmppStreamFeaturesPrivate': 'QXmppStreamFeaturesPrivate'})
+    prof.class_types.update({'QXmppConfigurationPrivate', 'QXmppStreamFeaturesPrivate'})
+    prof.calls.update({'op->:QXmppConfigurationPrivate*': ('expr', '{0}'), 'op->:QXmppStreamFeaturesPrivate*': ('expr', '{0}'),
+                       'QXmppStreamFeatures::streamManagementMode/0': ('callee', 'QXmppStreamFeatures_streamManagementMode')})
+    r_confpriv = record(CONF, 'QXmppConfiguration', 'QXmppConfigurationPrivate', need=['useSasl2Authentication', 'useSASLAuthentication', 'useNonSASLAuthentication'])
+    r_featpriv = record(FEAT, 'QXmppStreamFeatures', 'QXmppStreamFeaturesPrivate', need=['bindMode', 'nonSaslAuthMode', 'authMechanisms', 'sasl2Feature', 'streamManagementMode'])
+    r_feat = record(FEAT, 'QXmppStreamFeatures', 'QXmppStreamFeatures', need=['d'])
+    hsf_helpers = []
+    for g in ('useNonSASLAuthentication', 'useSASLAuthentication', 'useSasl2Authentication'):
+        lowneg('QXmppConfiguration_' + g, None, name=g, this='QXmppConfiguration', src=CONF, filt='QXmppConfiguration')
+        hsf_helpers.append('QXmppConfiguration_' + g)
+    for g in ('nonSaslAuthMode', 'bindMode', 'authMechanisms', 'sasl2Feature', 'streamManagementMode'):
+        lowneg('QXmppStreamFeatures_' + g, None, name=g, this='QXmppStreamFeatures', src=FEAT, filt='QXmppStreamFeatures')
+        hsf_helpers.append('QXmppStreamFeatures_' + g)
+    lowneg(Q + 'configuration', None, name='configuration')
+    lowneg('C2sStreamManager_onStreamFeatures', None, name='onStreamFeatures', this='C2sStreamManager', filt='C2sStreamManager')
+    hsf_helpers += [Q + 'configuration', 'C2sStreamManager_onStreamFeatures']
+    lowneg(Q + 'handleStreamFeatures', 'handleStreamFeatures.spec', name='handleStreamFeatures')
     cont_ids = []
     for lw_ in neg_lws:
         for i in range(len(getattr(lw_, 'continuations', []))):
@@ -434,13 +458,13 @@ void h_clientIsConnected(void) { gh_init(); const QXmppClient *self; QXmppClient
     cont_defs = '\n'.join('#define %s %d' % (c_, i + 1) for i, c_ in enumerate(cont_ids))
     neg_payload = sorted(set().union(*[getattr(x, 'need_payload', set()) for x in neg_lws]) - set(payload))
     neg_payload_defs = '\n'.join('#define XML_%s %d' % (t_, len(payload) + i + 1) for i, t_ in enumerate(neg_payload))
-    neg_order = ['C2sStreamManager_canRequestEnable', 'C2sStreamManager_canRequestResume'] + [Q + n_ for n_ in ('startSmResume', 'startSmEnable', 'startResourceBinding')] + \
-        ['startSmResume_cont0', 'startSmEnable_cont0', 'startResourceBinding_cont0', 'startSasl2Auth_cont1', 'startNonSaslAuth_cont1', 'startNonSaslAuth_cont0', 'handleStreamFeatures_cont0']
+    neg_order = hsf_helpers + ['C2sStreamManager_canRequestEnable', 'C2sStreamManager_canRequestResume'] + [Q + n_ for n_ in ('startSmResume', 'startSmEnable', 'startResourceBinding')] + \
+        ['startSmResume_cont0', 'startSmEnable_cont0', 'startResourceBinding_cont0', 'startSasl2Auth_cont1', 'startNonSaslAuth_cont1', 'startNonSaslAuth_cont0', 'handleStreamFeatures_cont0', Q + 'handleStreamFeatures']
     ctxt2 = b.context()
     seen2 = set()
     ctxt2 = '\n'.join(l for l in ctxt2.split('\n') if not (l.startswith(('enum {', 'static const')) and (l in seen2 or seen2.add(l))))
     neg_head = '\n'.join(['#include "opaque.h"', prof.literal_ids.table(), rd('model.h'), records, ctxt2, payload_defs, neg_payload_defs, b.subst(rd('callees.h')),
-                          r_bound, r_perr, r_nsopt, rd('variants.h'), r_s2succ] + vstructs + vdefs + [cont_defs, b.subst(rd('steps.h')),
+                          r_confpriv, r_featpriv, r_feat, r_bound, r_perr, r_nsopt, rd('variants.h'), r_s2succ] + vstructs + vdefs + [cont_defs, b.subst(rd('steps.h')),
                           'void *const gh_keep_stubs[] = { %s };' % ', '.join('(void *)%s' % x for x in STUBS + NEG_STUBS),
                           ''.join(b.prototype(lowered[fn]) for fn in (Q + 'openSession', Q + 'handleStart', Q + 'disconnectFromHost')),
                           '\n'.join(neg_lowered[fn].split('\n')[0] + ';' for fn in neg_order)])
@@ -503,6 +527,9 @@ void h_clientIsConnected(void) { gh_init(); const QXmppClient *self; QXmppClient
     proof('handleStreamFeatures.continuation-sasl', 'h_handleStreamFeatures_cont', 'handleStreamFeatures_cont0', nstubs + sess + starters, cfile=fneg,
           note='loop-free; SASL success restarts the stream (handleStart through its verified contract), failure gives up')
 
+    proof('handleStreamFeatures', 'h_handleStreamFeatures', Q + 'handleStreamFeatures', nstubs + sess + starters, cfile=fneg,
+          note='loop-free; every feature set, configuration and stream-management state; real getters of QXmppStreamFeatures / QXmppConfiguration and C2sStreamManager::onStreamFeatures / canRequestResume / canRequestEnable inlined; handleStarttls contract-only (verified in units/C04)')
+
     ops = [Q + n for n in ('_q_socketDisconnected', 'handleStart', 'openSession', 'disconnectFromHost', 'handleStreamError', 'socketError')]
     nlem1 = len(re.findall(r'"\[lemma\.', lem.split('void h_lemma_once')[0]))
     nlem2 = len(re.findall(r'"\[lemma\.', lem.split('void h_lemma_once')[1]))
@@ -517,6 +544,14 @@ void h_clientIsConnected(void) { gh_init(); const QXmppClient *self; QXmppClient
 
     finv = b.write('c10_inventory.c', '#include "base.h"\nvoid h_inventory(void) { %s __CPROVER_assert(1, "[lemma.closed_world_inventory_of_flag_writers_and_signal_emitters_matches]"); }\n'
                    % (('MODEL_LIMIT(0, "%s");' % inv_msg) if inv_msg else ''))
+    lemn = b.subst(rd('lemma_neg.h'))
+    neg_contracted = [fn for fn in neg_order if neg_specs.get(fn)]
+    flemn = b.write('c10_lemma_neg.c', '\n'.join([neg_head, ''.join(b.prototype(neg_lowered[fn]) for fn in neg_contracted), lemn]))
+    p = Proof('lemma_negotiation_event', flemn, 'h_lemma_negotiation', enforce=None, replace=[fn for fn in neg_contracted if 'cont' in fn or fn.endswith('handleStreamFeatures')],
+              include_dirs=[QT], kind='complete', loop_contracts=False, timeout=600, defines=list(BOTH_EXCLUDED),
+              note='any one negotiation event (features, or the continuation of any step with any payload) from any negotiating state; contracts only')
+    p.expect_post = len(re.findall(r'"\[lemma\.', lemn))
+    proofs.append(p)
     p = Proof('inventory', finv, 'h_inventory', enforce=None, replace=[], include_dirs=[QT], kind='complete', loop_contracts=False, timeout=60,
               note='AST inventory over the client TU compared with the expected writer / emitter / caller sets (unit.py EXPECTED)')
     p.expect_post = 1
@@ -529,7 +564,7 @@ void h_clientIsConnected(void) { gh_init(); const QXmppClient *self; QXmppClient
             rc, out = _run_script(mode)
             res.append('%s: %s' % (mode, 'REPRODUCED' if (rc == 0 and 'NOT-REPRODUCED' not in out) else ('NOT-REPRODUCED' if rc == 1 else 'replay failed')))
         native_note = '; native replay against the real library (%s: redirect-*/drop-*, %s: cut-*): ' % (FINDING, FINDING2) + ', '.join(res)
-    unit_text = rd('model.h') + rd('model2.h') + rd('callees.h') + rd('lemma.h') + open(os.path.join(QT, 'opaque.h')).read()
+    unit_text = rd('model.h') + rd('model2.h') + rd('callees.h') + rd('steps.h') + rd('variants.h') + rd('lemma_neg.h') + rd('lemma.h') + open(os.path.join(QT, 'opaque.h')).read()
     inv_text = '; '.join('%s %s: %s' % (k[0], k[1], ', '.join('%s%s%s' % (x[0], '[continuation]' if x[1] else '', ('=' + x[2]) if len(x) > 2 else '') for x in sorted(v)))
                          for k, v in sorted(found.items()))
     return {
@@ -550,12 +585,15 @@ ASSUMED = [
     'Q_ASSERT(!d->sessionStarted) in openSession is compiled out in the verified (release) configuration; the contract of openSession requires it instead and the unit checks nothing at the call sites inside continuations (see not_covered)',
     'lemma harnesses: the __CPROVER_assume statements are the arbitrary start state, the environment\'s choice of the next event, A-TRYNEXT, consistency of the ghost log, and the exclusion of the input class of finding C10-F1 (which is checked by its own proof and reported as KNOWN-FINDING)',
     'opaque strings (qtmodel/opaque.h); std::unique_ptr<QXmppOutgoingClientPrivate> d as a plain valid pointer',
+    'A-THEN / A-STEP (units/C10/steps.h): QXmppTask::then registers the continuation of the step whose request was just sent (ghost: a step is pending); the continuation runs after the registering function has returned, when that step is over, and steps are strictly sequential (one listener): every continuation and handleStreamFeatures are entered with no session open and no step pending (NEGOTIATING). That the server sends <stream:features/> only while no session is open is the protocol-conformance premise of the property',
+    'contract-only (bodies not verified here): startSasl2Auth, startNonSaslAuth (each starts exactly one step and installs its listener), handleStarttls (verified against the TLS gate in units/C04; here: never opens the session, starts at most one step), the request senders C2sStreamManager::requestResume/requestEnable, BindManager::bindAddress, SaslManager::authenticate, NonSaslAuthManager::authenticate, setListener<T>, QXmppConfiguration setters/getters (touch only the configuration), FastTokenManager/C2sStreamManager::onSasl2Success, C2sStreamManager::onBind2Bound, CsiManager::onStreamFeatures (none starts a step or opens the session)',
+    'values handed to continuations as tagged structs generated from the real parameter types (alternative order from the type, A-STD-VARIANT-ORDER); std::get on the inactive alternative is an obligation; the template argument of std::holds_alternative<T> is read from the source text',
 ]
 NOT_COVERED = [
     'the product "every protocol-conforming server script x every cut point x up to three connection attempts": only the per-function reset/close/open mechanisms the anchors name and two lemma harnesses over their contracts are decided (DESIGN 7)',
     '"a following connection attempt runs the negotiation from the start and succeeds": liveness over the event loop, the socket and the server; not addressed. (Observed in the native replay, not under contract: when the server sends </stream:stream> in the same TCP chunk as the see-other-host error, XmppSocket::processData emits streamClosed after the redirect connection has already been started, and QXmppOutgoingClient::disconnectFromHost then closes the NEW connection and gives up resumption -- the redirect is not followed; replay_redirect redirect-early-with-close)',
-    'that openSession\'s precondition (no session open) holds at its call sites: five of the six call sites are continuations (startSasl2Auth, startNonSaslAuth, startSmResume, startSmEnable, startResourceBinding), the sixth (handleStreamFeatures) runs whenever the server sends <stream:features/>; a second features element on an open session would report the session twice -- not excluded by any contract here (a protocol-conforming server does not send it)',
-    'the negotiation handlers themselves (handleStreamFeatures, the start*() steps and their continuations, handlePacketReceived) and the state they keep (bindModeAvailable, authenticationMethod, C2sStreamManager::m_smAvailable, Sasl/Bind listener objects): see units/C04 for the TLS gate; d->bind2Bound is cleared only by openSession, i.e. a bind2 result received on a connection that is lost before the session opens survives into the next attempt (the unit does not claim it is reset; no obligation speaks about it)',
+    'a second <stream:features/> on an OPEN session (non-conforming server) would reach handleStreamFeatures outside its precondition NEGOTIATING; openSession\'s precondition is established at all six call sites only under that precondition (A-THEN / A-STEP)',
+    'bodies of startSasl2Auth / startNonSaslAuth (request construction), handlePacketReceived (dispatch to the listener; units/C04), the listener objects that complete the steps (Sasl/Sasl2/Bind/NonSasl managers: when and with what a continuation is run)',
     'QXmppOutgoingClient::connectToHost / connectToAddressList (DNS lookup, address list construction), QXmppClient (reconnection timer, connectToServer, state(), stateChanged), PingManager timers',
     '"completes or retains every outstanding request": covered only as "the request table and the ack manager are told exactly once, with the right resumability flag" (their behaviour is units/C07 and C09); StreamAckManager::resetCache is not called on connection loss by design (unacknowledged stanzas are kept for resumption) and is outside this unit',
     're-entrancy of slots connected to connected/disconnected and of request continuations (A-SIGNAL)',
